@@ -116,7 +116,7 @@ def run(ctx):
         n_fl += 1
         t = P.fns[t_usr]
         ctx.use(t)
-        esc = E.from_root(t, classes={"explicit", "absent", "text", "strpos", "assert", "shape"})
+        esc = E.from_root(t, classes={"explicit", "absent", "text", "strpos", "assert", "shape", "fs"})
         ctx.check(not esc, "flusher-cannot-throw", "E-ESCAPE", t.loc(), "no throw site escapes the flusher thread's entry",
                   "an exception can escape the flusher thread (std::terminate: accepted lines are never written): " +
                   "; ".join("%s at %s" % (s_.what, s_.loc()) for s_, _ in esc[:3]), esc[0][1] if esc else None)
